@@ -425,7 +425,7 @@ def build(suite, info):
         fam = BinaryCliqueFormula if binary else CliqueFormula
         impl = run(lambda: fam(mk_graph(g), k, symbreak=symbreak, formula_class=fc))
         N = g["n"]
-        rejected = k < 0 or (binary and (k < 1 or N < 1))
+        rejected = k < 0                                     # binary: k = 0 / null graph accepted since the fix of D42
 
         def check(F):
             if F is None:
